@@ -11,6 +11,10 @@ use std::sync::{Arc, Mutex, atomic::{AtomicBool, AtomicUsize, Ordering}};
 use std::thread;
 use std::time::Duration;
 
+/// when set, the device puts a new reply into its mailbox as soon as the previous one has been read (endless stream)
+static REFILL: AtomicBool = AtomicBool::new(false);
+static READS: AtomicUsize = AtomicUsize::new(0);
+
 const WR_MBX: u16 = 0x1000;
 const RD_MBX: u16 = 0x1080;
 const MBX_LEN: u16 = 32;
@@ -49,8 +53,8 @@ fn with_device<R: Send + 'static>(
     // leak one storage per call so tests don't share state
     let storage: &'static PduStorage<8, { PduStorage::element_size(64) }> = Box::leak(Box::new(PduStorage::new()));
     let (mut tx, mut rx, pdu_loop) = storage.try_split().unwrap();
-    let timeouts = Timeouts { pdu: Duration::from_millis(200), mailbox_echo: Duration::from_millis(500), mailbox_response: Duration::from_millis(500), ..Timeouts::default() };
-    let maindevice = Arc::new(MainDevice::new(pdu_loop, timeouts, MainDeviceConfig::default()));
+    let timeouts = Timeouts { pdu: Duration::from_millis(2000), mailbox_echo: Duration::from_millis(1500), mailbox_response: Duration::from_millis(1500), ..Timeouts::default() };
+    let maindevice = Arc::new(MainDevice::new(pdu_loop, timeouts, MainDeviceConfig { retry_behaviour: crate::RetryBehaviour::Count(10), ..MainDeviceConfig::default() }));
     let stop = Arc::new(AtomicBool::new(false));
     let requests = Arc::new(AtomicUsize::new(0));
     let pending: Arc<Mutex<Option<Vec<u8>>>> = Arc::new(Mutex::new(None));
@@ -84,23 +88,30 @@ fn with_device<R: Send + 'static>(
                 // FPRD SM0 (write mailbox) status: never full
                 (0x04, 0x0805) => f[data] = 0x00,
                 // FPRD of the read mailbox
-                (0x04, RD_MBX) => { if let Some(r) = p.take() { f[data..data + len.min(r.len())].copy_from_slice(&r[..len.min(r.len())]); } }
+                (0x04, RD_MBX) => {
+                    if let Some(r) = p.take() { f[data..data + len.min(r.len())].copy_from_slice(&r[..len.min(r.len())]); }
+                    let n = READS.fetch_add(1, Ordering::SeqCst);
+                    if REFILL.load(Ordering::SeqCst) && n < 200_000 { *p = Some(script(n + 1)); }
+                }
                 _ => {}
             }
             f[data + len..data + len + 2].copy_from_slice(&1u16.to_le_bytes());
             drop(p);
-            let _ = rx.receive_frame(&f);
+            // the TX thread may not have marked the frame as sent yet: retry like the crate's own tests do
+            let mut tries = 0;
+            while rx.receive_frame(&f).is_err() && tries < 1_000_000 { tries += 1; }
         }
     });
 
     let md = maindevice.clone();
-    let res = thread::spawn(move || {
+    let res = thread::Builder::new().stack_size(256 << 20).spawn(move || {
         let mut sd = SubDevice { configured_address: 0x1001, ..Default::default() };
         sd.config.mailbox.read = Some(Mailbox { address: RD_MBX, len: MBX_LEN, sync_manager: 1 });
         sd.config.mailbox.write = Some(Mailbox { address: WR_MBX, len: MBX_LEN, sync_manager: 0 });
         sd.config.mailbox.has_coe = true;
         f(md, &sd)
     })
+    .unwrap()
     .join();
     stop.store(true, Ordering::Relaxed);
     let _ = txh.join();
@@ -141,4 +152,43 @@ fn d14_endless_empty_segments_terminate() {
     );
     let _ = res;
     assert!(n < 50, "sdo_read kept requesting segments that make no progress ({} requests)", n);
+}
+
+/// SDO info "get OD list" response: mailbox length `len`, op code 2, `incomplete` flag
+fn od_list(len: u16, incomplete: bool) -> Vec<u8> {
+    let mut v = mbx(len, 0x08);
+    v[8] = 0x02 | ((incomplete as u8) << 7);
+    v
+}
+
+fn od_query(md: Arc<MainDevice<'static>>, sd: &SubDevice) -> Result<bool, Error> {
+    let r = SubDeviceRef::new(&md, 0x1001, sd);
+    cassette::block_on(r.sdo_info_object_description_list(crate::subdevice::ObjectDescriptionListQuery::All)).map(|x| x.is_some())
+}
+
+#[test]
+fn d13_sdo_info_length_smaller_than_its_headers() {
+    // mailbox length 4 < the 8 bytes of CoE + SDO info header + list type: `length as usize - 8` underflowed
+    let (res, _) = with_device(|_| od_list(4, false), od_query);
+    assert!(res.is_ok(), "SDO info request panicked on a length field below 8");
+}
+
+#[test]
+fn d13_sdo_info_length_larger_than_the_reply() {
+    // mailbox length claims 200 data bytes, the mailbox holds 32: `response[..length]` indexed out of bounds
+    let (res, _) = with_device(|_| od_list(208, false), od_query);
+    assert!(res.is_ok(), "SDO info request panicked on a length field larger than the reply");
+}
+
+#[test]
+fn d14_sdo_info_endless_fragments_terminate() {
+    // fragments that carry nothing and always say "more follow", one after the other for as long as they are read
+    REFILL.store(true, Ordering::SeqCst);
+    READS.store(0, Ordering::SeqCst);
+    let (res, _) = with_device(|_| od_list(8, true), od_query);
+    REFILL.store(false, Ordering::SeqCst);
+    let reads = READS.load(Ordering::SeqCst);
+    eprintln!("reads = {}, result = {:?}", reads, res.as_ref().map(|r| r.as_ref().map(|_| ()).map_err(|e| *e)).map_err(|_| ()));
+    assert!(res.is_ok());
+    assert!(reads <= 70_000, "the request kept reading fragments that make no progress ({} reads)", reads);
 }
